@@ -123,6 +123,27 @@ def reads(chk, prog, cfg):
     b = prog.impl_body(fn)
     if not b:
         return
+    # one reader: once the stream is wrapped in a BufReader, every later read goes through it (bytes it has read ahead
+    # are otherwise skipped, and what is skipped depends on how the bytes were segmented)
+    wraps = [blk for blk, t in b.calls_to(r"BufReader::<R>::(new|with_capacity)$")]
+    chk.floor(f"BufReader wrapping the stream [{cfg}]", len(wraps), 1)
+    bypass = b.calls_to(r"BufReader::<R>::(get_mut|get_ref|into_inner|get_pin_mut)$")
+    chk.ob("R4.one_reader", fn, "the BufReader is never unwrapped / bypassed (get_mut, get_ref, into_inner)", not bypass,
+           f"{[t['callee'].split('::')[-1] for _, t in bypass]}: reading the underlying stream skips the bytes the BufReader has already buffered",
+           where=b.where(bypass[0][0]) if bypass else "", cfg=cfg)
+    nrd = 0
+    for blk, t in b.calls():
+        if not core.call_matches(t, GOOD_READ) and not core.call_matches(t, BARE_READ):
+            continue
+        if not any(blk in b.reachable([w]) for w in wraps):
+            continue
+        nrd += 1
+        rd = describe(prog, b, t["args"][0])
+        thru = desc_contains(rd, lambda x: x[0] == "call" and core.re.search(r"BufReader::<R>::(new|with_capacity)$", x[1]) is not None) or \
+            "BufReader" in (t.get("arg_tys") or [""])[0]
+        chk.ob("R4.one_reader", fn, f"{t['callee'].split('::')[-1]}@{describe_short(prog, b, t)} reads through the BufReader", thru,
+               f"receiver is {core.short(str(rd))[:120]} ({(t.get('arg_tys') or ['?'])[0]})", where=b.where(blk), cfg=cfg)
+    chk.floor(f"reads after the BufReader was created [{cfg}]", nrd, 3)
     found = 0
     for blk, t in b.calls_to(r"read_exact$"):
         buf = describe(prog, b, t["args"][1])
